@@ -89,7 +89,13 @@ int main(int argc, char** argv) {
             // the statement is about distributions that stay inside the grid: low interpolation orders smear the charge until it reaches the border;
             // a trajectory is followed up to the first step at which more than 1e-4 of the charge has left
             unsigned valid = steps; for (unsigned k = 1; k <= steps; k++) if (std::fabs(t.charge[k] / t.charge[0] - 1) > 1e-4) { valid = k - 1; break; }
-            if (valid < steps) R.addnum("sum_trajectories_cut_at_border", 1);
+            if (valid < steps) {
+                R.addnum("sum_trajectories_cut_at_border", 1);
+                // cubic interpolation does not smear a blob of radius <= 1.2 and width <= 0.9 to a border 4.8 or more units away within HALF a period
+                // (on the unchanged tree the earliest loss with it is at 96 % of the period, on a 32-cell grid; the lower orders lose charge earlier):
+                // such an early loss is itself a finding - a blob pushed out of the grid must not silently shorten its own check
+                if (it == 4 && 2 * (valid + 1) <= steps) { char d[200]; snprintf(d, 200, "shift (%g,%g): more than 1e-4 of the charge has left the grid at step %u of %u", sx, sy, valid + 1, steps); R.violate(key + "/charge-leaves-grid", kase, d); continue; }
+            }
             double phase = 0; bool bad = false;
             for (unsigned k = 1; k <= valid && !bad; k++) {
                 const double wq = c0q * std::cos(k * a) - c0p * std::sin(k * a), wp = c0q * std::sin(k * a) + c0p * std::cos(k * a);
